@@ -131,6 +131,8 @@ def run_case(case):
             "towers": [{"name": "A", "lat": 50.0001, "lon": 11.0001, "z_m": 3.0}],
             "met": met,
         }
+        if k % 2:  # every other configuration has no geographic reference origin (the forcing must be validated all the same)
+            del raw["domain"]["ref_lat"], raw["domain"]["ref_lon"]
         sig = f"{bits}|{presence}|{label}"
         nontrivial = any(isinstance(v, list) for v in met.values()) or exp[0] == "reject"
         # --- path 1: MetConfig(...).validate()
